@@ -156,6 +156,12 @@ def try_auto(ctx, site):
             h = F.cmp_holds(lits, 'ge', a, c)
             if h:
                 return True, 'G3 minuend >= subtrahend: ' + _h(b, h)
+            if F.const_int(c) == 1:
+                # unsigned a - 1: a != 0, or anything strictly below a, is enough
+                for lit, e in lits:
+                    if lit[0] == 'cmp' and ((lit[1] == 'ne' and lit[2] == a and F.const_int(lit[3]) == 0) or
+                                             (lit[1] == 'lt' and lit[3] == a) or (lit[1] == 'gt' and lit[2] == a)):
+                        return True, 'G3 unsigned minuend known >= 1: ' + fmt_lit(b, lit)
             h = F.cmp_holds(lits, 'lt', a, c)
             if h:
                 return 'definite', 'G3 contradiction: the dominating fact is %s, so the subtraction always underflows here' % _h(b, h)
@@ -293,7 +299,7 @@ def stable_lit(body, lit):
     return s
 
 
-def run_e1(ctx, roots_pattern, rule='E1-panic', stop_pattern=None, wide=False, extra_roots=()):
+def run_e1(ctx, roots_pattern, rule='E1-panic', stop_pattern=None, wide=False, extra_roots=(), extra_auto=None):
     """inventory + disposition of every panic site reachable from the entry instances"""
     db, cg, r = ctx.db, ctx.cg, ctx.r
     roots = cg.instances_matching(roots_pattern) + list(extra_roots)
@@ -334,6 +340,10 @@ def run_e1(ctx, roots_pattern, rule='E1-panic', stop_pattern=None, wide=False, e
         for s in body_sites:
             nsites += 1
             res, why = try_auto(ctx, s)
+            if res is not True and res != 'definite' and extra_auto is not None:
+                ex = extra_auto(ctx, s)
+                if ex:
+                    res, why = True, ex
             path = cg.fmt_path(par, n)
             if res is True:
                 r.ok(rule, s.key, '%s discharged by a dominating guard' % s.kind, status='auto', detail=why, loc=s.loc)
